@@ -49,7 +49,7 @@ class Untranslatable(Exception):
 COQTY = {"node": "nat", "optnode": "option nat", "nodes": "list nat", "bool": "bool", "hist": "list (nat * list nat)",
          "nat": "nat", "trn": "trans", "trns": "list trans", "trnss": "list (list trans)", "str": "string", "strs": "list string",
          "onmap": "list (string * list trans)", "otrn": "option trans", "inv": "invoke", "invs": "list invoke", "event": "event",
-         "ids": "list nat", "cache": "unit"}
+         "ids": "list nat", "cache": "unit", "decision": "on_done_decision"}
 ELEM = {"nodes": "node", "trns": "trn", "trnss": "trns", "strs": "str", "invs": "inv"}
 NIL = {"nodes": "(@nil nat)", "trns": "(@nil trans)", "ids": "(@nil nat)", "strs": "(@nil string)"}
 KINDS = {"parallel": "is_parallel", "compound": "is_compound", "history": "is_history", "atomic": "is_atomic",
@@ -78,6 +78,7 @@ class TreeFn:
         self.fuel = "fuel"          # name of the fuel variable in scope for recursive calls
         self.want = None            # element type wanted for an empty list literal (from the annotation of the assignment)
         self.known_params = {}
+        self.known_recursive = set()
 
     def fail(self, node, why):
         raise Untranslatable(f"{self.src_name}:{getattr(node, 'lineno', '?')}: {why}: {ast.unparse(node)[:90]}")
@@ -104,7 +105,16 @@ class TreeFn:
         if isinstance(e, ast.Name):
             if e.id in env:
                 return self.v(e.id), env[e.id]
+            if e.id == "COMPLETE__":
+                return "DComplete", "decision"
+            if e.id == "NOTHING__":
+                return "DNothing", "decision"
             self.fail(e, "unknown name")
+        if isinstance(e, ast.Call) and isinstance(e.func, ast.Name) and e.func.id == "FIRE__" and len(e.args) == 1:
+            a, ta = self.expr(e.args[0], env)
+            if ta != "node":
+                self.fail(e, "FIRE of " + ta)
+            return f"(DFire {a})", "decision"
         if isinstance(e, ast.Constant):
             if e.value is None:
                 return "(@None nat)", "optnode"
@@ -432,7 +442,8 @@ class TreeFn:
                 if [t for _, t in args] != ptys:
                     self.fail(e, f"argument types of {name}")
                 extra = "".join(x + " " for x in needs)
-                return f"({cname} m {extra}{' '.join(c for c, _ in args)})", rty
+                fuel = "(S (size m)) " if name in self.known_recursive else ""
+                return f"({cname} {fuel}m {extra}{' '.join(c for c, _ in args)})", rty
             self.fail(e, "method call")
         if isinstance(f, ast.Attribute) and f.attr == "startswith" and len(e.args) == 1 and not kw:
             recv, tr = self.expr(f.value, env)
@@ -834,8 +845,11 @@ class TreeFn:
         return False
 
     def while_stmt(self, s, rest, env, k, loop_k, ret_k, brk_k):
-        if s.orelse or contains(s.body, (ast.Return, ast.While)) or self.own_continue(s.body):
+        if s.orelse or contains(s.body, ast.While) or self.own_continue(s.body):
             self.fail(s, "while form")
+        has_ret = contains(s.body, ast.Return)
+        if has_ret and ret_k:
+            self.fail(s, "returning loop inside a returning loop")
         nar = self.narrow(s.test, env)
         if not nar or not nar[1]:
             self.fail(s, "while test must start with an Optional variable")
@@ -852,6 +866,8 @@ class TreeFn:
         params += "".join(f" ({self.v(n)} : {COQTY[env[n]]})" for n in free)
         cparams = "".join(f" ({self.cv(n)} : {COQTY['hist'] if n == '%H' else COQTY[types[n]]})" for n in carried)
         rty = " * ".join(COQTY["hist"] if n == "%H" else COQTY[types[n]] for n in carried)
+        if has_ret:
+            rty = f"option {COQTY[self.ret]} * ({rty})" if len(carried) > 1 else f"option {COQTY[self.ret]} * {rty}"
         env_b = dict(env)
         env_b[x] = "node"
         callargs = "".join(f" {c}" for c in ctx) + "".join(f" {self.v(n)}" for n in free)
@@ -865,8 +881,10 @@ class TreeFn:
                 items.append(c)
             return f"{lname} m{callargs} fuel_ " + " ".join(items)
 
-        stop = lambda env2: self.tup(carried, env2, types)
-        body = self.block(s.body, env_b, again, None, None, stop)
+        stop0 = lambda env2: self.tup(carried, env2, types)
+        stop = (lambda env2: f"(None, {stop0(env2)})") if has_ret else stop0
+        rk = (lambda c, env2: f"(Some {c}, {stop0(env2)})") if has_ret else None
+        body = self.block(s.body, env_b, again, None, rk, stop)
         if more is not None:
             body = f"if {self.test(more, env_b)} then ({body}) else ({stop(env_b)})"
         text = (f"Fixpoint {lname} (m : machine){params} (fuel : nat){cparams} {{struct fuel}} : {rty} :=\n"
@@ -875,6 +893,9 @@ class TreeFn:
                 f"{textwrap.indent(body, '      ')}\n    end\n  end.\n")
         self.aux.append(text)
         nxt = lambda env2: self.block(rest, env2, k, loop_k, ret_k, brk_k)
+        if has_ret:
+            return (f"let '(ret_, {', '.join(self.cv(n) for n in carried)}) := {lname} m{callargs} (S (size m)) {' '.join(self.cv(n) for n in carried)} in\n"
+                    f"match ret_ with\n| Some r_ => r_\n| None => ({nxt(env)})\nend")
         return (f"let {self.pat(carried)} := {lname} m{callargs} (S (size m)) {' '.join(self.cv(n) for n in carried)} in\n"
                 f"{nxt(env)}")
 
@@ -969,6 +990,7 @@ def translate_all(src_root=None):
            "From XSM Require Import Model.TreeLib Gen.GenTree Gen.GenMatch.", ""]
     known = {}
     known_params = {}
+    known_recursive = set()
     for spec in SPECS:
         fdefs = [n for n in body if isinstance(n, ast.FunctionDef) and n.name == spec["func"]]
         if len(fdefs) != 1:
@@ -978,11 +1000,15 @@ def translate_all(src_root=None):
         digest = hashlib.sha256(seg.encode()).hexdigest()[:16]
         fn = TreeFn(fdef, spec, f"{FILE}:{spec['func']}", known)
         fn.known_params = known_params
+        fn.known_recursive = known_recursive
         out.append(f"(* {FILE} :: {spec['func']}  sha256[:16]={digest} *)")
         out.append(fn.translate())
         known[spec["func"]] = (spec["coqname"], [t for _, t in spec["params"] if t != "cache"], spec["ret"], spec.get("needs", []))
         known_params[spec["func"]] = [p_ for p_, t in spec["params"] if t != "cache"]
+        if spec.get("recursive"):
+            known_recursive.add(spec["func"])
     out.append(translate_plans(src_root, known, known_params))
+    out.append(translate_on_done(src_root, known, known_params, known_recursive))
     return "\n".join(out)
 
 
@@ -1104,6 +1130,90 @@ def translate_plans(src_root, known, known_params):
             fn = TreeFn(synth, spec, src, known)
             fn.known_params = known_params
             out.append(fn.translate())
+    return "\n".join(out)
+
+
+# ---------------------------------------------------------------------------------------------------------------------
+# _check_and_fire_on_done (both engines' copies): WHICH ancestor's onDone fires when a final state is entered, or whether the
+# machine completes.  The effects are replaced by the decision they implement before the function is translated.
+ON_DONE_SOURCES = [("base_interpreter.py", "BaseInterpreter", "_check_and_fire_on_done", "on_done_async"),
+                   ("sync_interpreter.py", "SyncInterpreter", "_check_and_fire_on_done", "on_done_sync")]
+
+
+def _is_logger(s):
+    return isinstance(s, ast.Expr) and isinstance(s.value, ast.Call) and isinstance(s.value.func, ast.Attribute) \
+        and isinstance(s.value.func.value, ast.Name) and s.value.func.value.id == "logger"
+
+
+def _fire_block_ok(stmts):
+    """logger calls; done_event_type = f"done.state.{ancestor.id}"; done_event = DoneEvent(...); self._note_chained_event();
+    [await] self.send(<the done event of THIS ancestor>); return"""
+    if not stmts or not (isinstance(stmts[-1], ast.Return) and stmts[-1].value is None):
+        return False
+    sent = False
+    for s in stmts[:-1]:
+        if _is_logger(s) or (isinstance(s, ast.Expr) and isinstance(s.value, ast.Constant)):
+            continue
+        txt = ast.unparse(s)
+        if txt == "done_event_type = f'done.state.{ancestor.id}'":
+            continue
+        if txt == "self._note_chained_event()":
+            continue
+        ev = "DoneEvent(type=%s, data=self._resolve_output(final_state), src=ancestor.id)"
+        if txt == "done_event = " + ev % "f'done.state.{ancestor.id}'":
+            continue
+        if txt in ("await self.send(done_event)", "self.send(" + ev % "done_event_type" + ")"):
+            sent = True
+            continue
+        return False
+    return sent
+
+
+def _complete_block_ok(s):
+    want = ("if final_state.parent is self.machine or final_state.parent is None:\n"
+            "    machine_output = getattr(self.machine, 'machine_output', None)\n"
+            "    if machine_output is not None:\n"
+            "        self._complete(self._resolve_output_value(machine_output))\n"
+            "    else:\n"
+            "        self._complete(self._resolve_output(final_state))")
+    return isinstance(s, ast.If) and ast.unparse(s) == want
+
+
+def translate_on_done(src_root, known, known_params, known_recursive):
+    out = []
+    for fname, cls, func, coqname in ON_DONE_SOURCES:
+        text = open(os.path.join(src_root, fname), encoding="utf-8").read()
+        module = ast.parse(text)
+        fdef = None
+        for n in module.body:
+            if isinstance(n, ast.ClassDef) and n.name == cls:
+                for f in n.body:
+                    if isinstance(f, (ast.FunctionDef, ast.AsyncFunctionDef)) and f.name == func:
+                        fdef = f
+        if fdef is None:
+            raise Untranslatable(f"{fname}: {func} not found")
+        src = f"{fname}:{func}"
+        body = [st for st in fdef.body if not _is_logger(st) and not (isinstance(st, ast.Expr) and isinstance(st.value, ast.Constant))]
+        if len(body) != 3 or not isinstance(body[1], ast.While) or not _complete_block_ok(body[2]):
+            raise Untranslatable(f"{src}: expected `ancestor = ...; while ancestor: ...; <top-level completion>`")
+        loop = body[1]
+        wb = [st for st in loop.body if not _is_logger(st)]
+        if len(wb) != 2 or not isinstance(wb[0], ast.If) or wb[0].orelse or not _fire_block_ok(wb[0].body):
+            raise Untranslatable(f"{src}:{loop.lineno}: the loop body is not `if <done>: <queue the done event of this ancestor>; return` + advance")
+        fire = ast.parse("return FIRE__(ancestor)").body
+        new_loop = ast.While(test=loop.test, body=[ast.If(test=wb[0].test, body=fire, orelse=[]), wb[1]], orelse=[])
+        comp = ast.If(test=body[2].test, body=ast.parse("return COMPLETE__").body, orelse=[])
+        synth = ast.FunctionDef(name=func, args=ast.arguments(posonlyargs=[], args=[ast.arg(arg="self"), ast.arg(arg="final_state")],
+                                                               kwonlyargs=[], kw_defaults=[], defaults=[]),
+                                body=[body[0], new_loop, comp] + ast.parse("return NOTHING__").body, decorator_list=[], lineno=fdef.lineno)
+        ast.fix_missing_locations(synth)
+        spec = dict(func=func, coqname=coqname, params=[("final_state", "node")], ret="decision", needs=["v_C"])
+        fn = TreeFn(synth, spec, src, known)
+        fn.known_params = known_params
+        fn.known_recursive = known_recursive
+        seg = ast.get_source_segment(text, fdef) or ""
+        out.append(f"(* {fname} :: {func}  sha256[:16]={hashlib.sha256(seg.encode()).hexdigest()[:16]}: the decision (effects replaced by what they decide) *)")
+        out.append(fn.translate())
     return "\n".join(out)
 
 
